@@ -626,6 +626,9 @@ func (st *Stack) compactRange(first, last int, expiration *LogExpirationConfig) 
 	if os.IsExist(err) {
 		return false, nil
 	}
+	if err != nil {
+		return false, err
+	}
 
 	lockFile.Close()
 	defer func() {
